@@ -37,6 +37,9 @@ ACTORS = {
     "recurring": (0.010, False, True),
     "result": (0.010, False, False),
     "eager_ack": (0.010, False, False),  # the actor acknowledges by itself (await m.ack())
+    # the actor does not pass a cancellation on: it finishes its work and returns normally (the forced stop
+    # then meets a processing that completes with a disposition of its own)
+    "swallow": (0.050, False, False),
 }
 SLACK = 5 + 1 + 0.5
 TIMEOUT = 600.0
@@ -85,6 +88,9 @@ def execute(scn, k=None, deviations=None, slip=None):
             except asyncio.CancelledError:
                 # cancelled by the execution timeout = a failed execution; otherwise by the worker
                 timed_out = x.loop._ns - t0 >= TIMEOUT * NS
+                if scn["actor"] == "swallow" and not timed_out:
+                    actor_log(w, mid, "ok")
+                    return i
                 actor_log(w, mid, "fail" if timed_out else "cancelled")
                 raise
             if fails:
